@@ -6,27 +6,27 @@ func init() {
 			{Workload: "C04.quantile", Mode: "plain", QuickB: 16, ThoroughB: 16},
 			{Workload: "C04.binding", Mode: "plain", QuickB: 16, ThoroughB: 16},
 			// the VRF's curve arithmetic goes through cgo libsecp256k1: same workload under ASan
-			{Workload: "C04.binding", Mode: "asan", QuickB: 8, ThoroughB: 16, ThoroughOnly: true},
+			{Workload: "C04.binding", Mode: "asan", QuickB: 8, ThoroughB: 16, ThoroughT: 7200, ThoroughOnly: true},
 		},
 		Level: "exploration",
-		Rule: "C04.quantile: PRNG-drawn (stake, p) configurations (protocol committee sizes 26/2000/4000 and random ones over integer total stakes, n·p at the forward-scan/binary-search switch 20, arbitrary p, p→1, tiny p, stakes 1..30; stake ≤ 10^7, expected seats ≤ 12000) × per configuration ~650 VRF outputs: 0, 1, 2^256-1 and other edges, 33 values around the float64 0.99 switch-over (±1, ±2^200..2^203), uniform, log-spaced into both tails down to 1e-77, and outputs *targeted* at the exact decision boundaries Pr(X≤k) for ~40 seat counts k per configuration (extremes, mode, switch-over quantiles, deep tails) at −4…+4 tolerance widths. Every answer of the real `choose` is range-checked and compared with an exact 384-bit binomial table built from the pmf ratio recurrence; the oracle abstains only inside tol(k)=rho(n)·min(Pr(X≤k),Pr(X>k))+2^-52·pmf(k)(n−k), rho(n)=clamp(64·2^-53·n·ln n,1e-10,1e-6). p=1 and p=0 are judged by their exact rule; p>1 must not panic and stay in [0,stake]. " +
+		Rule: "C04.quantile: PRNG-drawn (stake, p) configurations (protocol committee sizes 26/2000/4000 and random ones over integer total stakes, n·p at the forward-scan/binary-search switch 20, arbitrary p, p→1, tiny p, stakes 1..30; stake ≤ 10^7, expected seats ≤ 12000) × per configuration ~600-1000 VRF outputs: 0, 1, 2^256-1 and other edges, 33 values around the float64 0.99 switch-over (±1, ±2^200..2^203), uniform, log-spaced into both tails down to 1e-77, and outputs *targeted* at the exact decision boundaries Pr(X≤k) for ~40 seat counts k per configuration (extremes, mode, switch-over quantiles, deep tails) at 15 offsets of −4…+4 tolerance widths (|θ|≥2 lies outside the abstention band and is decisive against an off-by-one in either direction; |θ|≤0.5 measures the implementation's float error as a fraction of the band). Every answer of the real `choose` is range-checked and compared with an exact 384-bit binomial table built from the pmf ratio recurrence; the oracle abstains only inside tol(k)=rho(n)·min(Pr(X≤k),Pr(X>k))+2^-51·pmf(k)(n−k), rho(n)=clamp(64·2^-53·n·ln n,1e-10,1e-6). p=1 and p=0 are judged by their exact rule; p>1 must not panic and stay in [0,stake]. " +
 			"C04.binding: real credentials from VrfSortition (keys incl. 1,2,3, N-1.., short scalars; indexes/steps incl. 0 and 2^32-1; expected seats 0.05…400): VRF value and point compared with an independent math/big secp256k1 + SHA-2 reference, seat count with the exact table, ProofToHash on an independently built message, honest credential accepted iff seats≥1, then ~35 single-field perturbations (key, 4 seed bits, index ±1/bit, step ±1/bit, step↔index, seat count ±1/0/bit31/other, 8 proof bits in s/t/format byte/x/y, 5 length changes, negated point, proof of another message, proof of another key, s↔t) must all be rejected by VrfVerifySortition, 6 perturbations of threshold/stake/total are judged by the seat-count oracle, the priority must equal the reference max Keccak(value‖i), verify, and every other candidate (other seat hashes, bit flips, 0, value, all-ones) and 10 field perturbations must be rejected by VrfVerifyPriority; plus zero-seat priorities, degenerate proof scalars (s,t ∈ {0, N, N+1.., 2^256-1}) and threshold>total through the exported entry points. distinct_nontrivial = distinct (generator kind, code branch, stake decade, mean decade, hash kind, outcome bucket) resp. (key kind, committee, stake decade, seat bucket) signatures.",
 		Explanation: "held = on the executions of this run every seat count was the exact binomial quantile (outside the stated float band), stayed in [0, stake], no call panicked, every honest credential/priority verified and no perturbed one did",
 		Assumptions: []string{
 			"the exact table (pmf ratio recurrence at 384 bits, window cut at 2^-460 of the mode) is the binomial distribution; checked per run against pmf sums and against closed forms for p=1",
-			"float tolerance: gonum's regularized incomplete beta is allowed a relative error rho(n) on the smaller tail mass (measured peak ≈ 3·2^-53·n·ln n, i.e. ≥ 20× headroom) and 1-p one rounding of 2^-52; answers inside that band are counted as ambiguous, not as correct",
+			"float tolerance: gonum's regularized incomplete beta is allowed a relative error rho(n) on the smaller tail mass (largest deviation observed inside the band: 5–10 % of it, reported as max_inband_error_ppm_of_tolerance_beta_dominated) and 1-p a perturbation of 2^-51 relative (the float64 rounding of 1-p moves p by ≤ 2^-54); answers inside that band are counted as ambiguous, not as correct",
 			"judged domain: stake ≤ 10^7 and expected seats n·p ≤ 12000 (3× the largest protocol committee); beyond it gonum's CDF itself loses accuracy (1.3e-3 at n=10^7, p=0.5) and nothing is claimed",
 			"SHA-256/SHA-512 of the Go standard library and Keccak-256 of golang.org/x/crypto are correct; reference public keys are cross-checked against the node's for every credential",
 			"proof randomness comes from crypto/rand inside Evaluate: verdicts do not depend on it (value and seat count are deterministic), witnesses carry the actual proof bytes",
 		},
 		Require: map[string]int64{
-			"branch_forward": 50000, "branch_bsearch": 50000, "branch_mirrored": 50000,
-			"decisive_targeted_forward": 5000, "decisive_targeted_bsearch": 5000, "decisive_targeted_mirrored": 5000,
-			"hash_switch": 10000, "hash_edge": 5000, "corner_p_eq_1": 500, "corner_p_eq_0": 500, "p_gt_1_probes": 20,
-			"seats_eq_stake": 1000, "seats_zero": 10000,
-			"credentials": 2000, "honest_accepted": 1000, "vrf_value_checked": 2000, "perturbations_rejected": 50000,
-			"stake_params_same_quantile": 200, "stake_params_other_quantile": 1000,
-			"honest_priority_accepted": 1000, "priority_candidates_rejected": 5000,
+			"branch_forward": 120000, "branch_bsearch": 120000, "branch_mirrored": 120000,
+			"decisive_targeted_forward": 8000, "decisive_targeted_bsearch": 20000, "decisive_targeted_mirrored": 25000,
+			"hash_switch": 25000, "hash_edge": 12000, "hash_uniform": 100000, "corner_p_eq_1": 500, "corner_p_eq_0": 1500, "p_gt_1_probes": 20,
+			"seats_eq_stake": 20000, "seats_zero": 50000,
+			"credentials": 3500, "honest_accepted": 2000, "vrf_value_checked": 3500, "perturbations_rejected": 100000,
+			"stake_params_same_quantile": 3000, "stake_params_other_quantile": 6000,
+			"honest_priority_accepted": 2000, "priority_candidates_rejected": 15000,
 			"zero_seat_priority_probes": 20, "degenerate_scalar_probes": 9,
 		},
 	}
